@@ -55,6 +55,13 @@ def WfMsgChan (ch : Str) : Prop := WfChan ch ∧ plainChanShape ch = true
 /-- `v` is the verb `V` in some letter case (`V` is given in upper case) -/
 def Verb (v V : Str) : Prop := asciiUpper v = V
 
+instance (ch : Str) : Decidable (WfChan ch) := by unfold WfChan; infer_instance
+instance (n : Str) : Decidable (WfNick n) := by unfold WfNick; infer_instance
+instance (p : Str) : Decidable (WfWord p) := by unfold WfWord; infer_instance
+instance (k : Str) : Decidable (WfKey k) := by unfold WfKey; infer_instance
+instance (ch : Str) : Decidable (WfMsgChan ch) := by unfold WfMsgChan; infer_instance
+instance (v V : Str) : Decidable (Verb v V) := by unfold Verb; infer_instance
+
 /-! the canonical client lines -/
 
 def lineJoin (v ch : Str) : Str := v ++ str " " ++ ch
@@ -160,7 +167,7 @@ theorem validateChannel_iff (ch : Str) :
       ch ≠ [] ∧ containsChar ':' ch = false ∧ containsChar ',' ch = false ∧
         hasChannelPrefix ch = true := by
   unfold validateChannel
-  cases ch <;> simp
+  cases ch <;> simp [and_assoc]
 
 theorem validateUsername_iff (u : Str) :
     validateUsername u = true ↔
@@ -242,5 +249,1047 @@ theorem WfNick.renderParams {n : Str} (h : WfNick n) : renderParams [n] = ' ' ::
     · subst hx; revert hw; decide
   have hemp : n.isEmpty = false := by cases n <;> simp_all
   simp [Irc.renderParams, hany, hemp, str]
+
+/-! ### `Message.parse` of the canonical client lines
+
+In every lemma the verb may be written in any letter case, the channel / nick / key are
+well-formed pieces, and the trailing text (`text`, `comment`, `topic`, `reason`) is ARBITRARY:
+any characters at all (blanks, colons, even line breaks — the framing layer guarantees that a
+line contains none, the parser does not need it). -/
+
+theorem parse_join {v ch : Str} (hv : Verb v (str "JOIN")) (hch : WfChan ch) :
+    Message.parse (lineJoin v ch) = .ok ⟨none, v, [ch]⟩ := by
+  obtain ⟨hw, h0⟩ := verb_word hv (by decide)
+  have := parse_nosrc v [ch] none hw h0 (by intro m hm; rw [List.mem_singleton.mp hm]; exact hch.word)
+  simpa [lineJoin, C13.middlesStr, C13.trailingStr, C13.str_space] using this
+
+theorem parse_joinKey {v ch key : Str} (hv : Verb v (str "JOIN")) (hch : WfChan ch)
+    (hk : WfKey key) : Message.parse (lineJoinKey v ch key) = .ok ⟨none, v, [ch, key]⟩ := by
+  obtain ⟨hw, h0⟩ := verb_word hv (by decide)
+  have := parse_nosrc v [ch, key] none hw h0 (by
+    intro m hm
+    rcases List.mem_cons.mp hm with rfl | hm
+    · exact hch.word
+    · rw [List.mem_singleton.mp hm]; exact hk.word)
+  simpa [lineJoinKey, C13.middlesStr, C13.trailingStr, C13.str_space] using this
+
+/-- PRIVMSG / NOTICE `tgt :text` — for EVERY text -/
+theorem parse_msg {v V tgt : Str} (hv : Verb v V) (hV : VerbOK V) (ht : C13.Word tgt)
+    (text : Str) : Message.parse (linePrivmsg v tgt text) = .ok ⟨none, v, [tgt, text]⟩ := by
+  obtain ⟨hw, h0⟩ := verb_word hv hV
+  have := parse_nosrc v [tgt] (some text) hw h0 (by
+    intro m hm; rw [List.mem_singleton.mp hm]; exact ht)
+  simpa [linePrivmsg, C13.middlesStr, C13.trailingStr, C13.str_space, C13.str_space_colon] using this
+
+theorem parse_privmsg {v tgt : Str} (hv : Verb v (str "PRIVMSG")) (ht : C13.Word tgt)
+    (text : Str) : Message.parse (linePrivmsg v tgt text) = .ok ⟨none, v, [tgt, text]⟩ :=
+  parse_msg hv (by decide) ht text
+
+theorem parse_notice {v tgt : Str} (hv : Verb v (str "NOTICE")) (ht : C13.Word tgt)
+    (text : Str) : Message.parse (linePrivmsg v tgt text) = .ok ⟨none, v, [tgt, text]⟩ :=
+  parse_msg hv (by decide) ht text
+
+theorem parse_kick {v ch nick : Str} (hv : Verb v (str "KICK")) (hch : WfChan ch)
+    (hn : WfNick nick) (comment : Str) :
+    Message.parse (lineKick v ch nick comment) = .ok ⟨none, v, [ch, nick, comment]⟩ := by
+  obtain ⟨hw, h0⟩ := verb_word hv (by decide)
+  have := parse_nosrc v [ch, nick] (some comment) hw h0 (by
+    intro m hm
+    rcases List.mem_cons.mp hm with rfl | hm
+    · exact hch.word
+    · rw [List.mem_singleton.mp hm]; exact hn.word)
+  simpa [lineKick, C13.middlesStr, C13.trailingStr, C13.str_space, C13.str_space_colon] using this
+
+theorem parse_topic {v ch : Str} (hv : Verb v (str "TOPIC")) (hch : WfChan ch) (topic : Str) :
+    Message.parse (lineTopic v ch topic) = .ok ⟨none, v, [ch, topic]⟩ := by
+  obtain ⟨hw, h0⟩ := verb_word hv (by decide)
+  have := parse_nosrc v [ch] (some topic) hw h0 (by
+    intro m hm; rw [List.mem_singleton.mp hm]; exact hch.word)
+  simpa [lineTopic, C13.middlesStr, C13.trailingStr, C13.str_space, C13.str_space_colon] using this
+
+theorem parse_nick {v new : Str} (hv : Verb v (str "NICK")) (hn : WfNick new) :
+    Message.parse (lineNick v new) = .ok ⟨none, v, [new]⟩ := by
+  obtain ⟨hw, h0⟩ := verb_word hv (by decide)
+  have := parse_nosrc v [new] none hw h0 (by
+    intro m hm; rw [List.mem_singleton.mp hm]; exact hn.word)
+  simpa [lineNick, C13.middlesStr, C13.trailingStr, C13.str_space] using this
+
+theorem parse_oper {v name pw : Str} (hv : Verb v (str "OPER")) (hn : WfNick name)
+    (hp : WfWord pw) : Message.parse (lineOper v name pw) = .ok ⟨none, v, [name, pw]⟩ := by
+  obtain ⟨hw, h0⟩ := verb_word hv (by decide)
+  have := parse_nosrc v [name, pw] none hw h0 (by
+    intro m hm
+    rcases List.mem_cons.mp hm with rfl | hm
+    · exact hn.word
+    · rw [List.mem_singleton.mp hm]; exact hp.word)
+  simpa [lineOper, C13.middlesStr, C13.trailingStr, C13.str_space] using this
+
+theorem parse_part {v ch : Str} (hv : Verb v (str "PART")) (hch : WfChan ch) (reason : Str) :
+    Message.parse (linePart v ch reason) = .ok ⟨none, v, [ch, reason]⟩ := by
+  obtain ⟨hw, h0⟩ := verb_word hv (by decide)
+  have := parse_nosrc v [ch] (some reason) hw h0 (by
+    intro m hm; rw [List.mem_singleton.mp hm]; exact hch.word)
+  simpa [linePart, C13.middlesStr, C13.trailingStr, C13.str_space, C13.str_space_colon] using this
+
+/-! ### `Command.fromMessage` of the parsed messages -/
+
+/-- reduce a verb in any letter case to its upper-case literal -/
+theorem fromMessage_verb {v V : Str} (hv : Verb v V) (hV : asciiUpper V = V) (src : Option Str)
+    (ps : List Str) : Command.fromMessage ⟨src, v, ps⟩ = Command.fromMessage ⟨src, V, ps⟩ :=
+  (C13.verb_case_insensitive ⟨src, V, ps⟩ v (by rw [hV]; exact hv)).2
+
+theorem cmd_join {v ch : Str} (hv : Verb v (str "JOIN")) (hch : WfChan ch) (src : Option Str) :
+    Command.fromMessage ⟨src, v, [ch]⟩ = .ok (.JOIN [ch] none) := by
+  rw [fromMessage_verb hv (by decide)]
+  have hp : Command.parseFromMessage ⟨src, str "JOIN", [ch]⟩ = .ok (.JOIN (splitComma ch) none) := rfl
+  unfold Command.fromMessage
+  rw [hp, splitComma_single hch.noComma]
+  simp [Command.validate, checkAll, check, hch.1]
+
+theorem cmd_joinKey {v ch key : Str} (hv : Verb v (str "JOIN")) (hch : WfChan ch)
+    (hk : WfKey key) (src : Option Str) :
+    Command.fromMessage ⟨src, v, [ch, key]⟩ = .ok (.JOIN [ch] (some [key])) := by
+  rw [fromMessage_verb hv (by decide)]
+  have hp : Command.parseFromMessage ⟨src, str "JOIN", [ch, key]⟩ =
+      .ok (.JOIN [ch] (some [key])) := by
+    have h0 : Command.parseFromMessage ⟨src, str "JOIN", [ch, key]⟩ =
+        (if (splitComma key).length ≠ (splitComma ch).length then
+          .error (.parameterDoesntMatch .JOIN 1)
+         else .ok (.JOIN (splitComma ch) (some (splitComma key)))) := rfl
+    rw [h0, splitComma_single hch.noComma, splitComma_single hk.noComma]
+    simp
+  unfold Command.fromMessage
+  rw [hp]
+  simp [Command.validate, checkAll, check, hch.1]
+
+/-! ### channel names as PRIVMSG / NOTICE targets -/
+
+def plainTT : TargetType := ⟨true, false, false, false, false, false⟩
+
+theorem plainChanShape_target {ch : Str} (h : plainChanShape ch = true) :
+    getPrivmsgTargetType ch = (plainTT, ch) := by
+  match ch, h with
+  | c0 :: c1 :: rest, h =>
+    simp only [plainChanShape, Bool.or_eq_true, beq_iff_eq, Bool.and_eq_true, Bool.not_eq_true',
+      Bool.or_eq_false_iff, beq_eq_false_iff_ne, ne_eq] at h
+    rcases h with rfl | ⟨rfl, ⟨⟨⟨⟨h1, h2⟩, h3⟩, h4⟩, h5⟩, h6⟩
+    · simp [getPrivmsgTargetType, privmsgTargetLoop, plainTT]
+    · simp [getPrivmsgTargetType, privmsgTargetLoop, plainTT, *]
+
+theorem plainChanShape_prefixed {ch : Str} (hv : validateChannel ch = true)
+    (h : plainChanShape ch = true) : validatePrefixedChannel ch = true := by
+  obtain ⟨hne, hcol, hcom, _⟩ := (validateChannel_iff ch).mp hv
+  have hemp : ch.isEmpty = false := by cases ch <;> simp_all
+  unfold validatePrefixedChannel
+  rw [hemp, hcol, hcom]
+  match ch, h with
+  | c0 :: c1 :: rest, h =>
+    simp only [plainChanShape, Bool.or_eq_true, beq_iff_eq, Bool.and_eq_true, Bool.not_eq_true',
+      Bool.or_eq_false_iff, beq_eq_false_iff_ne, ne_eq] at h
+    rcases h with rfl | ⟨rfl, ⟨⟨⟨⟨h1, h2⟩, h3⟩, h4⟩, h5⟩, h6⟩
+    · simp [prefixedChannelLoop]
+    · simp [prefixedChannelLoop, *]
+
+theorem WfMsgChan.target {ch : Str} (h : WfMsgChan ch) : getPrivmsgTargetType ch = (plainTT, ch) :=
+  plainChanShape_target h.2
+
+theorem cmd_msg_parse (src : Option Str) (tgt text : Str) :
+    Command.parseFromMessage ⟨src, str "PRIVMSG", [tgt, text]⟩ = .ok (.PRIVMSG (splitComma tgt) text) ∧
+    Command.parseFromMessage ⟨src, str "NOTICE", [tgt, text]⟩ = .ok (.NOTICE (splitComma tgt) text) :=
+  ⟨rfl, rfl⟩
+
+theorem cmd_privmsg {v ch : Str} (hv : Verb v (str "PRIVMSG")) (hch : WfMsgChan ch)
+    (src : Option Str) (text : Str) :
+    Command.fromMessage ⟨src, v, [ch, text]⟩ = .ok (.PRIVMSG [ch] text) := by
+  rw [fromMessage_verb hv (by decide)]
+  unfold Command.fromMessage
+  rw [(cmd_msg_parse src ch text).1, splitComma_single hch.1.noComma]
+  simp [Command.validate, checkAll, check, plainChanShape_prefixed hch.1.1 hch.2]
+
+theorem cmd_notice {v ch : Str} (hv : Verb v (str "NOTICE")) (hch : WfMsgChan ch)
+    (src : Option Str) (text : Str) :
+    Command.fromMessage ⟨src, v, [ch, text]⟩ = .ok (.NOTICE [ch] text) := by
+  rw [fromMessage_verb hv (by decide)]
+  unfold Command.fromMessage
+  rw [(cmd_msg_parse src ch text).2, splitComma_single hch.1.noComma]
+  simp [Command.validate, checkAll, check, plainChanShape_prefixed hch.1.1 hch.2]
+
+/-- the same for a nickname target -/
+theorem cmd_privmsg_nick {v n : Str} (hv : Verb v (str "PRIVMSG")) (hn : WfNick n)
+    (src : Option Str) (text : Str) :
+    Command.fromMessage ⟨src, v, [n, text]⟩ = .ok (.PRIVMSG [n] text) := by
+  rw [fromMessage_verb hv (by decide)]
+  unfold Command.fromMessage
+  rw [(cmd_msg_parse src n text).1, splitComma_single hn.noComma]
+  have : validateUsername n = true := hn
+  simp [Command.validate, checkAll, check, this]
+
+theorem cmd_kick {v ch nick : Str} (hv : Verb v (str "KICK")) (hch : WfChan ch) (hn : WfNick nick)
+    (src : Option Str) (comment : Str) :
+    Command.fromMessage ⟨src, v, [ch, nick, comment]⟩ = .ok (.KICK ch [nick] (some comment)) := by
+  rw [fromMessage_verb hv (by decide)]
+  have hp : Command.parseFromMessage ⟨src, str "KICK", [ch, nick, comment]⟩ =
+      .ok (.KICK ch (splitComma nick) (some comment)) := rfl
+  unfold Command.fromMessage
+  rw [hp, splitComma_single hn.noComma]
+  have : validateUsername nick = true := hn
+  simp [Command.validate, checkAll, check, hch.1, this, bind, Except.bind]
+
+theorem cmd_topic {v ch : Str} (hv : Verb v (str "TOPIC")) (hch : WfChan ch)
+    (src : Option Str) (topic : Str) :
+    Command.fromMessage ⟨src, v, [ch, topic]⟩ = .ok (.TOPIC ch (some topic)) := by
+  rw [fromMessage_verb hv (by decide)]
+  have hp : Command.parseFromMessage ⟨src, str "TOPIC", [ch, topic]⟩ =
+      .ok (.TOPIC ch (some topic)) := rfl
+  unfold Command.fromMessage
+  rw [hp]
+  simp [Command.validate, check, hch.1]
+
+theorem cmd_nick {v new : Str} (hv : Verb v (str "NICK")) (hn : WfNick new) (src : Option Str) :
+    Command.fromMessage ⟨src, v, [new]⟩ = .ok (.NICK new) := by
+  rw [fromMessage_verb hv (by decide)]
+  have hp : Command.parseFromMessage ⟨src, str "NICK", [new]⟩ = .ok (.NICK new) := rfl
+  unfold Command.fromMessage
+  rw [hp]
+  have : validateUsername new = true := hn
+  simp [Command.validate, check, this]
+
+theorem cmd_oper {v name pw : Str} (hv : Verb v (str "OPER")) (hn : WfNick name)
+    (src : Option Str) : Command.fromMessage ⟨src, v, [name, pw]⟩ = .ok (.OPER name pw) := by
+  rw [fromMessage_verb hv (by decide)]
+  have hp : Command.parseFromMessage ⟨src, str "OPER", [name, pw]⟩ = .ok (.OPER name pw) := rfl
+  unfold Command.fromMessage
+  rw [hp]
+  have : validateUsername name = true := hn
+  simp [Command.validate, check, this]
+
+theorem cmd_part {v ch : Str} (hv : Verb v (str "PART")) (hch : WfChan ch)
+    (src : Option Str) (reason : Str) :
+    Command.fromMessage ⟨src, v, [ch, reason]⟩ = .ok (.PART [ch] (some reason)) := by
+  rw [fromMessage_verb hv (by decide)]
+  have hp : Command.parseFromMessage ⟨src, str "PART", [ch, reason]⟩ =
+      .ok (.PART (splitComma ch) (some reason)) := rfl
+  unfold Command.fromMessage
+  rw [hp, splitComma_single hch.noComma]
+  simp [Command.validate, checkAll, check, hch.1]
+
+/-! ## 2. `step` of a line that parses to a command -/
+
+theorem conn_of_conn? {w : World} {c : Nat} {cn : Conn} (hc : w.conn? c = some cn)
+    (d : List Str) (q : List (Nat × Str)) : ({ w := w, direct := d, queued := q } : Ctx).conn c = cn := by
+  unfold Ctx.conn; rw [hc]; rfl
+
+theorem conn?_bump (w : World) (i c : Nat) : (bumpCount w i).conn? c = w.conn? c := rfl
+
+/-- if no connection is flagged after the handler, the settling phase is the identity:
+    the operation delivers the direct replies (to `c`) followed by the queued lines, and the
+    resulting world is the handler's world -/
+theorem finish_of_settled (cfg : Cfg) (c : Nat) (x : Ctx)
+    (hs : ∀ y ∈ x.w.conns, y.quit = false ∧ y.killedBy = none) :
+    finish cfg c x =
+      { w := x.w, outs := x.direct.map (fun l => (c, l)) ++ x.queued, events := [] } := by
+  unfold finish
+  simp only [Tear.settle_of_settled cfg x.w _ [] hs]
+
+/-- a line of a live connection that parses to the command `cmd` and passes the registration
+    gate: the operation is `finish` of `dispatch` on the count-bumped world -/
+theorem step_line_eq {cfg : Cfg} {w : World} {c : Nat} {s : Str} {cn : Conn} {msg : Message}
+    {cmd : Command} (hc : w.conn? c = some cn)
+    (hg : cn.authenticated = true ∨ allowedUnregistered cmd = true)
+    (hp : Message.parse s = .ok msg) (hcmd : Command.fromMessage msg = .ok cmd) :
+    step cfg w (.line c s) =
+      finish cfg c (dispatch cfg c msg cmd { w := bumpCount w cmd.id.index }) := by
+  have hcn : ({ w := w } : Ctx).conn c = cn := conn_of_conn? hc [] []
+  have hgate : (!(allowedUnregistered cmd) && !cn.authenticated) = false := by
+    rcases hg with h | h <;> simp [h]
+  unfold step
+  simp only [hc]
+  congr 1
+  unfold handleLine
+  simp only [hp, hcmd, hcn, hgate, Bool.false_eq_true, if_false]
+  rfl
+
+/-- … and when the gate refuses: exactly the 451 reply on the count-bumped world -/
+theorem step_line_gate {cfg : Cfg} {w : World} {c : Nat} {s : Str} {cn : Conn} {msg : Message}
+    {cmd : Command} (hc : w.conn? c = some cn)
+    (ha : cn.authenticated = false) (hg : allowedUnregistered cmd = false)
+    (hp : Message.parse s = .ok msg) (hcmd : Command.fromMessage msg = .ok cmd) :
+    step cfg w (.line c s) =
+      finish cfg c (({ w := bumpCount w cmd.id.index } : Ctx).reply cfg
+        (ErrNotRegistered451 cn.clientName)) := by
+  have hcn : ({ w := w } : Ctx).conn c = cn := conn_of_conn? hc [] []
+  unfold step
+  simp only [hc]
+  congr 1
+  unfold handleLine
+  simp only [hp, hcmd, hcn, hg, ha, Bool.not_false, Bool.and_self, if_true]
+  rfl
+
+/-- The handlers other than QUIT / KILL / DIE / SQUIT flag no connection, unless they say 464
+    (a failed registration password closes the connection; a failed OPER password also says 464
+    but closes nothing — for OPER use `processOper_frame`). -/
+theorem dispatch_settled {cfg : Cfg} {w : World} {c : Nat} {cn : Conn} {msg : Message}
+    {cmd : Command} (hI : Inv w) (hc : w.conn? c = some cn)
+    (hg : cn.authenticated = true ∨ allowedUnregistered cmd = true)
+    (hcmd : Command.fromMessage msg = .ok cmd)
+    (hk : C05.mayKill cmd = false) (hq : C05.isQuit cmd = false)
+    (h464 : ¬ C05.Said464 cfg (dispatch cfg c msg cmd { w := bumpCount w cmd.id.index })) :
+    ∀ y ∈ (dispatch cfg c msg cmd { w := bumpCount w cmd.id.index }).w.conns,
+      y.quit = false ∧ y.killedBy = none := by
+  have hcn : ({ w := bumpCount w cmd.id.index } : Ctx).conn c = cn := conn_of_conn? hc [] []
+  have hl : Live (bumpCount w cmd.id.index) c := ⟨cn, (Tear.conn?_some hc).1, (Tear.conn?_some hc).2⟩
+  have hIx : InvCore ({ w := bumpCount w cmd.id.index } : Ctx).w := invCore_bumpCount hI.toInvCore _
+  obtain ⟨hI', _⟩ := invCore_dispatch (cfg := cfg) (c := c) (msg := msg) hIx hl hcmd
+    (by rw [hcn]; exact hg.symm)
+  have E := C05.eff_dispatch (cfg := cfg) (c := c) (X := { w := bumpCount w cmd.id.index })
+    (msg := msg) (cmd := cmd)
+  intro y hy
+  by_cases hid : y.id = c
+  · obtain ⟨cn', hcn', hqq, hkk⟩ := E.self cn hc
+    have : (dispatch cfg c msg cmd { w := bumpCount w cmd.id.index }).w.conn? y.id = some y :=
+      Tear.conn?_of_mem hI'.connsNodup hy
+    rw [hid, hcn'] at this
+    cases this
+    obtain ⟨h1, h2⟩ := hI.settled cn (Tear.conn?_some hc).1
+    refine ⟨?_, (hkk hk).trans h2⟩
+    rcases hqq with e | e | e
+    · exact e.trans h1
+    · rw [hq] at e; cases e
+    · exact absurd e h464
+  · obtain ⟨y0, hy0, _, hr⟩ := E.conns y hy
+    have := (hr hid).2 hk
+    subst this
+    exact hI.settled y0 hy0
+
+
+/-! ## 3. per-command facts -/
+
+/-- the registered user behind an authenticated connection -/
+theorem own_user {w : World} {c : Nat} {cn : Conn} {n : Str} (hI : InvCore w)
+    (hc : w.conn? c = some cn) (ha : cn.authenticated = true) (hn : cn.nick = some n) :
+    ∃ u, Map.lookup n w.users = some u ∧ u.owner = c := by
+  obtain ⟨hm, hid⟩ := Tear.conn?_some hc
+  obtain ⟨n', u, hn', hu, ho⟩ := hI.authOwns cn hm ha
+  rw [hn] at hn'; cases hn'
+  exact ⟨u, hu, ho.trans hid⟩
+
+/-- another user's queue belongs to another connection -/
+theorem owner_ne_self {w : World} {c : Nat} {cn : Conn} {n m : Str} {um : User} (hI : InvCore w)
+    (hc : w.conn? c = some cn) (ha : cn.authenticated = true) (hn : cn.nick = some n)
+    (hm : Map.lookup m w.users = some um) (hne : m ≠ n) : um.owner ≠ c := by
+  obtain ⟨u, hu, ho⟩ := own_user hI hc ha hn
+  intro e
+  exact hne (Msg.owner_injective hI.connsNodup
+    (fun k uk h => by
+      obtain ⟨cn', h1, h2, _, h3⟩ := hI.userOwned k uk h
+      exact ⟨cn', h1, h2, h3⟩) hm hu (e.trans ho.symm))
+
+theorem dedup_single (t : Str) : dedup [t] = [t] := by simp [dedup]
+
+/-- PRIVMSG / NOTICE with ONE target is `privmsgTarget` of that target -/
+theorem ppn_single (cfg : Cfg) (c : Nat) (t text : Str) (notice : Bool) (x : Ctx) (n : Str)
+    (hn : (x.conn c).nick = some n) (hu : Map.contains n x.w.users = true)
+    (hw : (privmsgTarget cfg c n notice text t x).1.w = x.w) :
+    processPrivmsgNotice cfg c [t] text notice x = (privmsgTarget cfg c n notice text t x).1 := by
+  rw [Msg.processPrivmsgNotice_eq]
+  simp only [hn, dedup_single, List.foldl_cons, List.foldl_nil, Msg.pmStep, hw, hu]
+  simp
+
+/-- PRIVMSG / NOTICE to ONE existing channel (plain target), at the level of the handler -/
+theorem privmsg_chan_handler (cfg : Cfg) (c : Nat) (n ch text : Str) (notice : Bool) (x : Ctx)
+    (C : Channel) (hI : InvCore x.w) (hn : (x.conn c).nick = some n)
+    (hu : Map.contains n x.w.users = true) (hch : WfMsgChan ch)
+    (hC : Map.lookup ch x.w.channels = some C) :
+    (C10.Spec.maySpeak C n (x.conn c).source →
+      (processPrivmsgNotice cfg c [ch] text notice x).w = x.w ∧
+      (processPrivmsgNotice cfg c [ch] text notice x).direct = x.direct ∧
+      (processPrivmsgNotice cfg c [ch] text notice x).queued =
+        x.queued ++ ((Map.keys C.users).filter (· != n)).map (fun m =>
+          (C01.Spec.ownerOf x.w m, C01.Spec.line (x.conn c).source notice ch text))) ∧
+    (¬ C10.Spec.maySpeak C n (x.conn c).source →
+      (processPrivmsgNotice cfg c [ch] text notice x).w = x.w ∧
+      (processPrivmsgNotice cfg c [ch] text notice x).queued = x.queued ∧
+      (processPrivmsgNotice cfg c [ch] text notice x).direct =
+        x.direct ++ (if notice = true then []
+          else [C10.Spec.err404 cfg (x.conn c).clientName ch])) := by
+  have ht := hch.target
+  have h1 : (getPrivmsgTargetType ch).1.channel = true := by rw [ht]; rfl
+  have h2 : C01.Spec.plain (getPrivmsgTargetType ch).1 := by rw [ht]; exact ⟨rfl, rfl, rfl, rfl, rfl⟩
+  have h3 : Map.lookup (getPrivmsgTargetType ch).2 x.w.channels = some C := by rw [ht]; exact hC
+  have h4 : (getPrivmsgTargetType ch).2 = ch := by rw [ht]
+  constructor
+  · intro hs
+    obtain ⟨q, hw, hd, _, _, _⟩ := C01.plain_channel_recipients cfg c n notice text ch x h1 h2 h3 hs
+      (fun m hm => hI.memberIsUser ch C m hC hm) (hI.membersNodup ch C hC)
+    rw [ppn_single cfg c ch text notice x n hn hu hw]
+    exact ⟨hw, hd, q⟩
+  · intro hs
+    obtain ⟨q, hw, _, hd⟩ := C10.rejected_nobody_receives cfg c n notice text ch x h1 h3 hs
+    rw [ppn_single cfg c ch text notice x n hn hu hw]
+    rw [h4] at hd
+    exact ⟨hw, q, hd⟩
+
+
+theorem bumpCount_users (w : World) (i : Nat) : (bumpCount w i).users = w.users := rfl
+theorem bumpCount_channels (w : World) (i : Nat) : (bumpCount w i).channels = w.channels := rfl
+
+/-- the setting of the end-to-end theorems: a world satisfying the invariant, a live,
+    authenticated connection `c` with record `cn`, registered under the nick `n` -/
+structure Client (w : World) (c : Nat) (cn : Conn) (n : Str) : Prop where
+  inv : Inv w
+  live : w.conn? c = some cn
+  auth : cn.authenticated = true
+  nick : cn.nick = some n
+
+theorem Client.clientName {w : World} {c : Nat} {cn : Conn} {n : Str} (h : Client w c cn n) :
+    cn.clientName = n := by
+  unfold Conn.clientName; rw [h.nick]
+
+theorem Client.user {w : World} {c : Nat} {cn : Conn} {n : Str} (h : Client w c cn n) :
+    ∃ u, Map.lookup n w.users = some u ∧ u.owner = c :=
+  own_user h.inv.toInvCore h.live h.auth h.nick
+
+/-- the members of `C` other than `n`, as recipients: no repetition, registered users, owned by
+    pairwise different connections, none of them `c` -/
+theorem others_facts {w : World} {c : Nat} {cn : Conn} {n : Str} (h : Client w c cn n)
+    {ch : Str} {C : Channel} (hC : Map.lookup ch w.channels = some C) :
+    ((Map.keys C.users).filter (· != n)).Nodup ∧
+    (∀ m, m ∈ (Map.keys C.users).filter (· != n) ↔ (∃ r, Map.lookup m C.users = some r) ∧ m ≠ n) ∧
+    (((Map.keys C.users).filter (· != n)).map (C01.Spec.ownerOf w)).Nodup ∧
+    (∀ m ∈ (Map.keys C.users).filter (· != n), C01.Spec.ownerOf w m ≠ c) := by
+  have hI := h.inv.toInvCore
+  have hnd : ((Map.keys C.users).filter (· != n)).Nodup := (hI.membersNodup ch C hC).filter _
+  have hmem := Msg.mem_plainRcpts C n
+  have hk : ∀ m ∈ (Map.keys C.users).filter (· != n), ∃ u, Map.lookup m w.users = some u := by
+    intro m hm
+    obtain ⟨⟨r, hr⟩, _⟩ := (hmem m).mp hm
+    exact (Map.contains_iff _ _).mp (hI.memberIsUser ch C m hC ((Map.contains_iff _ _).mpr ⟨r, hr⟩))
+  refine ⟨hnd, hmem, C01.one_copy_per_connection_inv hI _ hnd hk, ?_⟩
+  intro m hm
+  obtain ⟨um, hum⟩ := hk m hm
+  have : C01.Spec.ownerOf w m = um.owner := by simp [C01.Spec.ownerOf, hum]
+  rw [this]
+  exact owner_ne_self hI h.live h.auth h.nick hum ((hmem m).mp hm).2
+
+/-- PRIVMSG / NOTICE `ch :text` through `step`, both verbs at once -/
+theorem msg_step (cfg : Cfg) {w : World} {c : Nat} {cn : Conn} {n : Str} (h : Client w c cn n)
+    (notice : Bool) {s : Str} {msg : Message} {ch : Str} (text : Str)
+    (hp : Message.parse s = .ok msg)
+    (hcmd : Command.fromMessage msg = .ok (if notice then .NOTICE [ch] text else .PRIVMSG [ch] text))
+    (hch : WfMsgChan ch) {C : Channel} (hC : Map.lookup ch w.channels = some C) :
+    (step cfg w (.line c s)).w =
+      bumpCount w (if notice then CmdId.NOTICE.index else CmdId.PRIVMSG.index) ∧
+    (step cfg w (.line c s)).events = [] ∧
+    (C10.Spec.maySpeak C n cn.source →
+      (step cfg w (.line c s)).outs = ((Map.keys C.users).filter (· != n)).map (fun m =>
+        (C01.Spec.ownerOf w m, C01.Spec.line cn.source notice ch text))) ∧
+    (¬ C10.Spec.maySpeak C n cn.source →
+      (step cfg w (.line c s)).outs =
+        if notice = true then [] else [(c, C10.Spec.err404 cfg n ch)]) := by
+  have hI := h.inv
+  obtain ⟨u, hu, _⟩ := h.user
+  cases notice
+  · simp only [Bool.false_eq_true, if_false] at hcmd ⊢
+    have hx : ({ w := bumpCount w CmdId.PRIVMSG.index } : Ctx).conn c = cn := conn_of_conn? h.live [] []
+    obtain ⟨hA, hB⟩ := privmsg_chan_handler cfg c n ch text false
+      { w := bumpCount w CmdId.PRIVMSG.index } C (invCore_bumpCount hI.toInvCore _)
+      (by rw [hx]; exact h.nick) ((Map.contains_iff _ _).mpr ⟨u, hu⟩) hch hC
+    rw [hx] at hA hB
+    rw [step_line_eq h.live (Or.inl h.auth) hp hcmd]
+    have hd : dispatch cfg c msg (Command.PRIVMSG [ch] text)
+        { w := bumpCount w (Command.PRIVMSG [ch] text).id.index } =
+        processPrivmsgNotice cfg c [ch] text false { w := bumpCount w CmdId.PRIVMSG.index } := rfl
+    rw [hd]
+    by_cases hs : C10.Spec.maySpeak C n cn.source
+    · obtain ⟨a1, a2, a3⟩ := hA hs
+      rw [finish_of_settled _ _ _ (by rw [a1]; exact hI.settled), a1, a2, a3]
+      refine ⟨rfl, rfl, fun _ => ?_, fun hn => absurd hs hn⟩
+      simp [C01.Spec.ownerOf, bumpCount_users]
+    · obtain ⟨a1, a2, a3⟩ := hB hs
+      rw [finish_of_settled _ _ _ (by rw [a1]; exact hI.settled), a1, a2, a3]
+      refine ⟨rfl, rfl, fun hn => absurd hn hs, fun _ => ?_⟩
+      simp [h.clientName]
+  · simp only [if_true] at hcmd ⊢
+    have hx : ({ w := bumpCount w CmdId.NOTICE.index } : Ctx).conn c = cn := conn_of_conn? h.live [] []
+    obtain ⟨hA, hB⟩ := privmsg_chan_handler cfg c n ch text true
+      { w := bumpCount w CmdId.NOTICE.index } C (invCore_bumpCount hI.toInvCore _)
+      (by rw [hx]; exact h.nick) ((Map.contains_iff _ _).mpr ⟨u, hu⟩) hch hC
+    rw [hx] at hA hB
+    rw [step_line_eq h.live (Or.inl h.auth) hp hcmd]
+    have hd : dispatch cfg c msg (Command.NOTICE [ch] text)
+        { w := bumpCount w (Command.NOTICE [ch] text).id.index } =
+        processPrivmsgNotice cfg c [ch] text true { w := bumpCount w CmdId.NOTICE.index } := rfl
+    rw [hd]
+    by_cases hs : C10.Spec.maySpeak C n cn.source
+    · obtain ⟨a1, a2, a3⟩ := hA hs
+      rw [finish_of_settled _ _ _ (by rw [a1]; exact hI.settled), a1, a2, a3]
+      refine ⟨rfl, rfl, fun _ => ?_, fun hn => absurd hs hn⟩
+      simp [C01.Spec.ownerOf, bumpCount_users]
+    · obtain ⟨a1, a2, a3⟩ := hB hs
+      rw [finish_of_settled _ _ _ (by rw [a1]; exact hI.settled), a1, a2, a3]
+      refine ⟨rfl, rfl, fun hn => absurd hn hs, fun _ => ?_⟩
+      simp
+
+
+/-! ### JOIN -/
+
+/-- the error lines (without the `:server ` prefix) of a refused single-channel JOIN: the first
+    failing channel-level condition (475 / 474 / 473 / 471), then 405 if the quota is exhausted -/
+def joinErrs (cfg : Cfg) (R : C07.Spec.Request) (client : Str) (cnt : Nat) : List Str :=
+  (match C07.Spec.admit R with
+   | .ok _ => []
+   | .error e => [e.line client R.chname]) ++
+  (if C07.Spec.quotaOk cfg cnt then [] else [C07.Spec.Refusal.tooMany.line client R.chname])
+
+theorem joinErrs_ne_nil (cfg : Cfg) (R : C07.Spec.Request) (client : Str) (cnt : Nat)
+    (h : ¬ (C07.Spec.admit R = .ok () ∧ C07.Spec.quotaOk cfg cnt = true)) :
+    joinErrs cfg R client cnt ≠ [] := by
+  unfold joinErrs
+  cases ha : C07.Spec.admit R with
+  | error e => simp
+  | ok u =>
+    cases u
+    cases hq : C07.Spec.quotaOk cfg cnt with
+    | false => simp
+    | true => exact absurd ⟨ha, hq⟩ h
+
+theorem keyList_single (k : Option Str) : (C07.keyList (k.map (fun x => [x]))).head?.join = k := by
+  cases k <;> rfl
+
+/-- a refused JOIN of ONE existing channel by a non-member, at the level of the handler -/
+theorem join_refused_handler (cfg : Cfg) (c : Nat) (ch : Str) (keys : Option (List Str)) (x : Ctx)
+    (n : Str) (u : User) (C : Channel)
+    (hn : (x.conn c).nick = some n) (hu : Map.lookup n x.w.users = some u)
+    (hC : Map.lookup ch x.w.channels = some C) (hnm : Map.contains n C.users = false)
+    (href : ¬ (C07.Spec.admit (C07.Spec.Request.mk C ch (C07.keyList keys).head?.join
+        (x.conn c).source u.invitedTo) = .ok () ∧
+      C07.Spec.quotaOk cfg u.channels.length = true)) :
+    (processJoin cfg c [ch] keys x).w = x.w ∧ (processJoin cfg c [ch] keys x).queued = x.queued ∧
+    (processJoin cfg c [ch] keys x).direct = x.direct ++
+      (joinErrs cfg (C07.Spec.Request.mk C ch (C07.keyList keys).head?.join (x.conn c).source
+        u.invitedTo) (x.conn c).clientName u.channels.length).map (C07.srvLine cfg) := by
+  have hj : (C07.Spec.decideOne cfg x.w (x.conn c).source n (x.conn c).clientName u.invitedTo ch
+      (C07.keyList keys).head?.join u.channels.length).join = false := by
+    cases hj : (C07.Spec.decideOne cfg x.w (x.conn c).source n (x.conn c).clientName u.invitedTo ch
+      (C07.keyList keys).head?.join u.channels.length).join with
+    | false => rfl
+    | true => exact absurd ((C07.join_iff cfg x.w _ n _ _ ch _ _ C hC hnm).mp hj) href
+  have hdec : joinDecide cfg x.w (x.conn c) n u.invitedTo [ch] (C07.keyList keys)
+      u.channels.length =
+      ([(false, false)], joinErrs cfg (C07.Spec.Request.mk C ch (C07.keyList keys).head?.join
+        (x.conn c).source u.invitedTo) (x.conn c).clientName u.channels.length,
+        u.channels.length) := by
+    rw [C07.joinDecide_cons]
+    simp only [C07.joinDecide_nil, hj]
+    cases hadm : C07.Spec.admit (C07.Spec.Request.mk C ch (C07.keyList keys).head?.join
+        (x.conn c).source u.invitedTo) <;>
+      simp [C07.Spec.decideOne, C07.Spec.chanErrs, hC, joinErrs, hadm]
+  obtain ⟨h1, h2, h3, _⟩ := C07.processJoin_all_refused cfg c [ch] keys x n u hn hu
+    (by rw [hdec]; simp)
+  rw [hdec] at h3
+  exact ⟨h1, h2, h3⟩
+
+/-- `JOIN ch [key]` of ONE existing channel by a non-member, through `step` -/
+theorem join_step (cfg : Cfg) {w : World} {c : Nat} {cn : Conn} {n : Str} (h : Client w c cn n)
+    {s : Str} {msg : Message} {ch : Str} (keyOpt : Option Str)
+    (hp : Message.parse s = .ok msg)
+    (hcmd : Command.fromMessage msg = .ok (.JOIN [ch] (keyOpt.map (fun k => [k]))))
+    {C : Channel} {u : User} (hC : Map.lookup ch w.channels = some C)
+    (hu : Map.lookup n w.users = some u) (hnm : Map.contains n C.users = false) :
+    (C07.Spec.admit (C07.Spec.Request.mk C ch keyOpt cn.source u.invitedTo) = .ok () ∧
+        C07.Spec.quotaOk cfg u.channels.length = true →
+      (step cfg w (.line c s)).w =
+        { bumpCount w CmdId.JOIN.index with
+          users := Map.modify n (C07.userJoined ch) w.users
+          channels := Map.insert ch (C.addUser n) w.channels } ∧
+      (step cfg w (.line c s)).events = [] ∧
+      ∃ burst : List Str, (step cfg w (.line c s)).outs =
+        (c, C07.joinLine cn.source ch) :: burst.map (fun l => (c, l)) ++
+          (Map.keys C.users).map (fun m => (C01.Spec.ownerOf w m, C07.joinLine cn.source ch))) ∧
+    (¬ (C07.Spec.admit (C07.Spec.Request.mk C ch keyOpt cn.source u.invitedTo) = .ok () ∧
+        C07.Spec.quotaOk cfg u.channels.length = true) →
+      (step cfg w (.line c s)).w = bumpCount w CmdId.JOIN.index ∧
+      (step cfg w (.line c s)).events = [] ∧
+      (step cfg w (.line c s)).outs =
+        (joinErrs cfg (C07.Spec.Request.mk C ch keyOpt cn.source u.invitedTo) n
+          u.channels.length).map (fun e => (c, C07.srvLine cfg e))) := by
+  have hI := h.inv
+  have hx : ({ w := bumpCount w CmdId.JOIN.index } : Ctx).conn c = cn := conn_of_conn? h.live [] []
+  have hd : dispatch cfg c msg (Command.JOIN [ch] (keyOpt.map (fun k => [k])))
+      { w := bumpCount w (Command.JOIN [ch] (keyOpt.map (fun k => [k]))).id.index } =
+      processJoin cfg c [ch] (keyOpt.map (fun k => [k])) { w := bumpCount w CmdId.JOIN.index } := rfl
+  rw [step_line_eq h.live (Or.inl h.auth) hp hcmd, hd]
+  constructor
+  · rintro ⟨hadm, hq⟩
+    obtain ⟨a1, a2, a3⟩ := C07.processJoin_single_accepted cfg c ch (keyOpt.map (fun k => [k]))
+      { w := bumpCount w CmdId.JOIN.index } n u C (by rw [hx]; exact h.nick) hu hC hnm
+      (by rw [keyList_single, hx]; exact hadm) hq
+      (fun m hm => hI.memberIsUser ch C m hC ((Map.contains_iff _ _).mpr ((Map.mem_keys_iff _ _).mp hm)))
+    rw [finish_of_settled _ _ _ (by rw [a1]; exact hI.settled)]
+    refine ⟨a1, rfl, (processJoin cfg c [ch] (keyOpt.map (fun k => [k]))
+      { w := bumpCount w CmdId.JOIN.index }).direct.tail, ?_⟩
+    show List.map _ _ ++ _ = _
+    rw [a3, a2, hx]
+    simp only [List.nil_append, List.map_cons, List.cons_append, List.tail_cons]
+    rfl
+  · intro href
+    obtain ⟨a1, a2, a3⟩ := join_refused_handler cfg c ch (keyOpt.map (fun k => [k]))
+      { w := bumpCount w CmdId.JOIN.index } n u C (by rw [hx]; exact h.nick) hu hC hnm
+      (by rw [keyList_single, hx]; exact href)
+    rw [finish_of_settled _ _ _ (by rw [a1]; exact hI.settled), a1, a2, a3, keyList_single, hx,
+      h.clientName]
+    refine ⟨rfl, rfl, ?_⟩
+    simp
+
+
+/-! ### the registration gate -/
+
+/-- a well-formed command outside the pre-registration list on an unauthenticated live
+    connection, through `step` (from `C03.gate`): one 451 line, only the counter changes -/
+theorem gate_step (cfg : Cfg) {w : World} {c : Nat} {cn : Conn} {s : Str} {msg : Message}
+    {cmd : Command} (hI : Inv w) (hc : w.conn? c = some cn) (ha : cn.authenticated = false)
+    (hp : Message.parse s = .ok msg) (hcmd : Command.fromMessage msg = .ok cmd)
+    (hg : allowedUnregistered cmd = false) :
+    step cfg w (.line c s) =
+      { w := bumpCount w cmd.id.index, outs := [(c, C03.line451 cfg.name cn)], events := [] } := by
+  have hcn : ({ w := w } : Ctx).conn c = cn := conn_of_conn? hc [] []
+  obtain ⟨g1, g2, g3, _⟩ := C03.gate cfg { w := w } c s msg cmd (by rw [hcn]; exact ha) hp hcmd hg
+  have hst : step cfg w (.line c s) = finish cfg c (handleLine cfg c s { w := w }) := by
+    unfold step; simp only [hc]
+  rw [hst, finish_of_settled _ _ _ (by rw [g3]; exact hI.settled), g1, g2, g3, hcn]
+  rfl
+
+/-! ### NICK -/
+
+/-- `NICK new` by a registered user, through `step` -/
+theorem nick_step (cfg : Cfg) {w : World} {c : Nat} {cn : Conn} {n : Str} (h : Client w c cn n)
+    {s v new : Str} (hp : Message.parse s = .ok ⟨none, v, [new]⟩)
+    (hcmd : Command.fromMessage ⟨none, v, [new]⟩ = .ok (.NICK new)) (hnew : WfNick new)
+    (hne : new ≠ n) {u : User} (hu : Map.lookup n w.users = some u) :
+    (Map.contains new w.users = false →
+      C15.IdentityMoved n new u (C15.sourceOf new cn.name cn.hostname) c
+        (bumpCount w CmdId.NICK.index) (step cfg w (.line c s)).w ∧
+      (step cfg w (.line c s)).events = [] ∧
+      (step cfg w (.line c s)).outs = (Map.keys (step cfg w (.line c s)).w.users).map (fun m =>
+        (ownerOf (step cfg w (.line c s)).w m, ':' :: (cn.source ++ ' ' :: (v ++ ' ' :: new)))) ∧
+      (Map.keys (step cfg w (.line c s)).w.users).Nodup) ∧
+    (Map.contains new w.users = true →
+      (step cfg w (.line c s)).w = bumpCount w CmdId.NICK.index ∧
+      (step cfg w (.line c s)).events = [] ∧
+      (step cfg w (.line c s)).outs =
+        [(c, str ":" ++ cfg.name ++ str " 433 " ++ n ++ str " " ++ new ++
+          str " :Nickname is already in use")]) := by
+  have hI := h.inv
+  have hx : ({ w := bumpCount w CmdId.NICK.index } : Ctx).conn c = cn := conn_of_conn? h.live [] []
+  have hR : C15.Registered ({ w := bumpCount w CmdId.NICK.index } : Ctx) c n u :=
+    ⟨by rw [hx]; exact h.auth, by rw [hx]; exact h.nick, hu, invCore_bumpCount hI.toInvCore _⟩
+  have hd : dispatch cfg c ⟨none, v, [new]⟩ (Command.NICK new)
+      { w := bumpCount w (Command.NICK new).id.index } =
+      processNick cfg c new ⟨none, v, [new]⟩ { w := bumpCount w CmdId.NICK.index } := rfl
+  have hst := step_line_eq (cfg := cfg) h.live (Or.inl h.auth) hp hcmd
+  constructor
+  · intro hfree
+    have hm := C15.nick_moves_identity (cfg := cfg) (msg := ⟨none, v, [new]⟩) hR hne hfree
+    obtain ⟨a1, a2, a3⟩ := C15.nick_announced (cfg := cfg) (msg := ⟨none, v, [new]⟩) hR hne hfree
+    have hs := dispatch_settled (cfg := cfg) (msg := ⟨none, v, [new]⟩) hI h.live (Or.inl h.auth)
+      hcmd rfl rfl (by
+        rw [hd]
+        rintro ⟨cl, hcl⟩
+        rw [a3] at hcl
+        cases hcl)
+    rw [hst, finish_of_settled _ _ _ hs, hd]
+    refine ⟨?_, rfl, ?_, a2⟩
+    · have : C15.newSource ({ w := bumpCount w CmdId.NICK.index } : Ctx) c new =
+          C15.sourceOf new cn.name cn.hostname := by unfold C15.newSource; rw [hx]
+      rw [← this]; exact hm
+    · show List.map _ _ ++ _ = _
+      rw [a3, a1, hx]
+      simp only [List.map_nil, List.nil_append]
+      apply List.map_congr_left
+      intro m _
+      simp [Message.render, hnew.renderParams]
+  · intro hused
+    obtain ⟨b1, b2, b3⟩ := C15.nick_refused (cfg := cfg) (msg := ⟨none, v, [new]⟩) hR hne hused
+    rw [hst, hd, finish_of_settled _ _ _ (by rw [b1]; exact hI.settled), b1, b2, b3]
+    exact ⟨rfl, rfl, rfl⟩
+
+/-! ### OPER -/
+
+/-- `OPER name pw` by a registered user, through `step` -/
+theorem oper_step (cfg : Cfg) {w : World} {c : Nat} {cn : Conn} {n : Str} (h : Client w c cn n)
+    {s : Str} {msg : Message} {name pw : Str} (hp : Message.parse s = .ok msg)
+    (hcmd : Command.fromMessage msg = .ok (.OPER name pw)) {u : User}
+    (hu : Map.lookup n w.users = some u) :
+    (step cfg w (.line c s)).events = [] ∧
+    (C11.OperGranted cfg cn.source name pw →
+      (step cfg w (.line c s)).outs =
+        [(c, ':' :: (cfg.name ++ ' ' :: RplYoureOper381 n))] ∧
+      Map.lookup n (step cfg w (.line c s)).w.users =
+        some { u with modes := { u.modes with oper := true } }) ∧
+    (¬ C11.OperGranted cfg cn.source name pw →
+      (step cfg w (.line c s)).w = bumpCount w CmdId.OPER.index ∧
+      (step cfg w (.line c s)).outs = [(c, ':' :: (cfg.name ++ ' ' ::
+        (if (∃ op, cfg.findOper name = some op ∧ cfg.pwOk pw op.password = false)
+         then ErrPasswdMismatch464 n else ErrNoOperHost491 n)))]) ∧
+    (C11.operOf (step cfg w (.line c s)).w n = true ↔
+      (u.modes.oper = true ∨ C11.OperGranted cfg cn.source name pw)) ∧
+    (∀ m, m ≠ n → Map.lookup m (step cfg w (.line c s)).w.users = Map.lookup m w.users) ∧
+    (step cfg w (.line c s)).w.channels = w.channels ∧
+    (step cfg w (.line c s)).w.conns = w.conns := by
+  have hI := h.inv
+  have hx : ({ w := bumpCount w CmdId.OPER.index } : Ctx).conn c = cn := conn_of_conn? h.live [] []
+  have hd : dispatch cfg c msg (Command.OPER name pw)
+      { w := bumpCount w (Command.OPER name pw).id.index } =
+      processOper cfg c name pw { w := bumpCount w CmdId.OPER.index } := rfl
+  obtain ⟨f1, f2, f3, _⟩ := C11.processOper_frame cfg c name pw { w := bumpCount w CmdId.OPER.index }
+  obtain ⟨o1, o2, o3, _, o5, _⟩ := C11.oper_spec cfg c name pw { w := bumpCount w CmdId.OPER.index }
+    n u (by rw [hx]; exact h.nick) hu
+  rw [hx] at o1 o2 o3
+  rw [h.clientName] at o1 o2
+  rw [step_line_eq h.live (Or.inl h.auth) hp hcmd, hd,
+    finish_of_settled _ _ _ (by rw [f2]; exact hI.settled)]
+  refine ⟨rfl, ?_, ?_, o3, o5, f3, f2⟩
+  · intro hg
+    obtain ⟨d1, d2⟩ := o1 hg
+    refine ⟨?_, d2⟩
+    show List.map _ _ ++ _ = _
+    rw [d1, f1]; rfl
+  · intro hg
+    have e := o2 hg
+    refine ⟨?_, ?_⟩
+    · show (processOper cfg c name pw _).w = _
+      rw [e]; rfl
+    · show List.map _ (processOper cfg c name pw _).direct ++ (processOper cfg c name pw _).queued = _
+      rw [e]; rfl
+
+
+/-! ### KICK (single victim), re-derived from `processKick`
+
+`Irc.Props.C09` cannot be imported next to `Irc.Props.C15` (both define `Irc.ownerOf`), so the
+single-victim case is proved here directly; `kickable` is `C09.Spec.kickable` verbatim. -/
+
+/-- who may kick whom, in the words of the statement of C09 -/
+def kickable (actor victim : ChanUserModes) : Bool :=
+  -- issued by a member ranked half-operator or above
+  (actor.founder || actor.prot || actor.operator || actor.halfOper) &&
+  -- never removes a founder or protected member
+  !(victim.founder || victim.prot) &&
+  -- a mere half-operator cannot remove half-operators or above
+  !((actor.halfOper && !actor.founder && !actor.prot && !actor.operator) &&
+    (victim.founder || victim.prot || victim.operator || victim.halfOper))
+
+theorem kickable_model (chum vm : ChanUserModes) (hH : chum.isHalfOperator = true) :
+    (!vm.isProtected && (!vm.isHalfOperator || !chum.isOnlyHalfOperator)) = kickable chum vm := by
+  obtain ⟨aq, aa, av, ao, ah⟩ := chum
+  obtain ⟨mq, ma, mv, mo, mh⟩ := vm
+  simp only [ChanUserModes.isHalfOperator] at hH
+  simp only [kickable, ChanUserModes.isProtected, ChanUserModes.isHalfOperator,
+    ChanUserModes.isOnlyHalfOperator]
+  revert hH
+  cases aq <;> cases aa <;> cases ao <;> cases ah <;> cases mq <;> cases ma <;> cases mo <;>
+    cases mh <;> decide
+
+theorem kickable_halfOp {chum vm : ChanUserModes} (h : kickable chum vm = true) :
+    chum.isHalfOperator = true := by
+  unfold kickable at h
+  simp only [Bool.and_eq_true] at h
+  exact h.1.1
+
+/-- the KICK line as the clients see it -/
+def kickLine (source ch v comment : Str) : Str :=
+  str ":" ++ source ++ str " KICK " ++ ch ++ str " " ++ v ++ str " :" ++ comment
+
+/-- the one error reply of a refused single-victim KICK on an existing channel `C`:
+    442 issuer not on the channel, 482 issuer below half-operator, 441 victim not on the channel,
+    972 victim may not be kicked by this issuer -/
+def kickErr (client ch v n : Str) (C : Channel) : Str :=
+  match Map.lookup n C.users with
+  | none => ErrNotOnChannel442 client ch
+  | some chum =>
+    if chum.isHalfOperator then
+      (match Map.lookup v C.users with
+       | none => ErrUserNotInChannel441 client v ch
+       | some _ => ErrCannotDoCommand972 client)
+    else ErrChanOpPrivsNeeded482 client ch
+
+theorem lookup_modify_owner (v : Str) (f : User → User) (hf : ∀ u, (f u).owner = u.owner)
+    (users : Map User) (m : Str) :
+    (Map.lookup m (Map.modify v f users)).map (·.owner) = (Map.lookup m users).map (·.owner) := by
+  rw [Map.lookup_modify]
+  split
+  · cases Map.lookup m users <;> simp [hf]
+  · rfl
+
+theorem kick_ok_handler (cfg : Cfg) (c : Nat) (ch v comment : Str) (x : Ctx) (n : Str)
+    (C : Channel) (chum vm : ChanUserModes)
+    (hn : (x.conn c).nick = some n) (hC : Map.lookup ch x.w.channels = some C)
+    (ha : Map.lookup n C.users = some chum) (hv : Map.lookup v C.users = some vm)
+    (hk : kickable chum vm = true)
+    (hmem : ∀ m, Map.contains m C.users = true → Map.contains m x.w.users = true) :
+    (processKick cfg c ch [v] (some comment) x).w = x.w.removeUserFromChannel ch v ∧
+    (processKick cfg c ch [v] (some comment) x).direct = x.direct ∧
+    (processKick cfg c ch [v] (some comment) x).queued = x.queued ++
+      ((Map.keys C.users).filter (· != v) ++ [v]).map (fun m =>
+        (C01.Spec.ownerOf x.w m, kickLine (x.conn c).source ch v comment)) := by
+  have hH := kickable_halfOp hk
+  have hcond : (!vm.isProtected && (!vm.isHalfOperator || !chum.isOnlyHalfOperator)) = true := by
+    rw [kickable_model chum vm hH]; exact hk
+  have hvc : Map.contains v C.users = true := (Map.contains_iff _ _).mpr ⟨vm, hv⟩
+  have hsel : kickSelect (x.conn c).clientName ch C chum.isOnlyHalfOperator [v] [] = ([v], []) := by
+    simp [kickSelect, hv, hcond]
+  have hw1 := Tear.removeUserFromChannel_eq' x.w ch v C hC hvc
+  -- the members remaining on the channel after the removal
+  have hlk : Map.lookup ch (x.w.removeUserFromChannel ch v).channels = Tear.chanDrop v C := by
+    rw [hw1]
+    show Map.lookup ch (Tear.chansAfterDrop ch v C x.w.channels) = _
+    rw [Tear.lookup_chansAfterDrop, if_pos rfl]
+  have hke : Map.keys (Tear.chanWithout C v).users = (Map.keys C.users).filter (· != v) :=
+    Map.keys_erase v C.users
+  have hknown : ∀ m ∈ (Map.keys C.users).filter (· != v) ++ [v],
+      Map.contains m (x.w.removeUserFromChannel ch v).users = true := by
+    intro m hm
+    have hmC : Map.contains m C.users = true := by
+      rcases List.mem_append.mp hm with hm | hm
+      · exact (Map.contains_iff _ _).mpr ((Map.mem_keys_iff _ _).mp (List.mem_filter.mp hm).1)
+      · rw [List.mem_singleton.mp hm]; exact hvc
+    obtain ⟨um, hum⟩ := (Map.contains_iff _ _).mp (hmem m hmC)
+    rw [hw1]
+    show Map.contains m (Map.modify v _ x.w.users) = true
+    rw [Map.contains_iff, Map.lookup_modify]
+    split
+    · exact ⟨_, by rw [hum]; rfl⟩
+    · exact ⟨um, hum⟩
+  have hfold : processKick cfg c ch [v] (some comment) x =
+      (((Map.keys C.users).filter (· != v) ++ [v]).foldl (fun y m =>
+        y.sendDisplay m (x.conn c).source
+          (str "KICK " ++ ch ++ [' '] ++ v ++ str " :" ++ comment))
+        (x.modifyW (fun w => w.removeUserFromChannel ch v))) := by
+    unfold processKick
+    simp only [hn, hC, ha, hH, if_true, hsel, List.foldl_nil, List.foldl_cons, Ctx.modifyW_w,
+      Option.getD_some, List.foldl_append, hlk]
+    cases hcd : Tear.chanDrop v C with
+    | none =>
+      have : (Map.keys C.users).filter (· != v) = [] := by
+        unfold Tear.chanDrop at hcd
+        split at hcd
+        · rename_i he
+          simp only [Bool.and_eq_true] at he
+          rw [← hke, List.isEmpty_iff.mp he.1]; rfl
+        · cases hcd
+      rw [this]
+    | some C' =>
+      have : C' = Tear.chanWithout C v := (Tear.chanDrop_some hcd).1
+      subst this
+      simp only [hke]
+  rw [hfold]
+  refine ⟨?_, ?_, ?_⟩
+  · rw [Msg.foldl_send_w_of_known _ _ _ _ hknown]; rfl
+  · rw [Msg.foldl_send_direct]; rfl
+  · rw [Msg.foldl_send_queued]
+    show x.queued ++ _ = _
+    congr 1
+    have hline : (':' :: ((x.conn c).source ++ ' ' :: (str "KICK " ++ ch ++ [' '] ++ v ++ str " :" ++
+        comment))) = kickLine (x.conn c).source ch v comment := by
+      simp [kickLine, str]
+    rw [hline]
+    apply Msg.deliver_eq_map
+    intro m hm
+    obtain ⟨um, hum⟩ := (Map.contains_iff _ _).mp (hknown m hm)
+    refine ⟨um, hum, ?_⟩
+    have ho := lookup_modify_owner v (fun u => { u with channels := KSet.erase ch u.channels })
+      (fun _ => rfl) x.w.users m
+    have hum' : Map.lookup m (Map.modify v (fun u => { u with channels := KSet.erase ch u.channels })
+        x.w.users) = some um := by
+      have := hum
+      rw [hw1] at this
+      exact this
+    rw [hum'] at ho
+    simp only [C01.Spec.ownerOf]
+    cases hl : Map.lookup m x.w.users with
+    | none => rw [hl] at ho; cases ho
+    | some u0 => rw [hl] at ho; simpa using ho
+
+theorem kick_refused_handler (cfg : Cfg) (c : Nat) (ch v comment : Str) (x : Ctx) (n : Str)
+    (C : Channel) (hn : (x.conn c).nick = some n) (hC : Map.lookup ch x.w.channels = some C)
+    (href : ¬ ∃ chum vm, Map.lookup n C.users = some chum ∧ Map.lookup v C.users = some vm ∧
+      kickable chum vm = true) :
+    processKick cfg c ch [v] (some comment) x =
+      x.reply cfg (kickErr (x.conn c).clientName ch v n C) := by
+  unfold processKick kickErr
+  simp only [hn, hC]
+  cases ha : Map.lookup n C.users with
+  | none => rfl
+  | some chum =>
+    cases hH : chum.isHalfOperator with
+    | false => simp [hH]
+    | true =>
+      simp only [hH, if_true]
+      cases hv : Map.lookup v C.users with
+      | none => simp [kickSelect, hv]; rfl
+      | some vm =>
+        have hcond : (!vm.isProtected && (!vm.isHalfOperator || !chum.isOnlyHalfOperator)) = false := by
+          rw [kickable_model chum vm hH]
+          cases hk : kickable chum vm with
+          | false => rfl
+          | true => exact absurd ⟨chum, vm, ha, hv, hk⟩ href
+        simp [kickSelect, hv, hcond]; rfl
+
+/-- `KICK ch v :comment` on an existing channel, through `step` -/
+theorem kick_step (cfg : Cfg) {w : World} {c : Nat} {cn : Conn} {n : Str} (h : Client w c cn n)
+    {s : Str} {msg : Message} {ch v comment : Str} (hp : Message.parse s = .ok msg)
+    (hcmd : Command.fromMessage msg = .ok (.KICK ch [v] (some comment)))
+    {C : Channel} (hC : Map.lookup ch w.channels = some C) :
+    ((∃ chum vm, Map.lookup n C.users = some chum ∧ Map.lookup v C.users = some vm ∧
+        kickable chum vm = true) →
+      (step cfg w (.line c s)).w = (bumpCount w CmdId.KICK.index).removeUserFromChannel ch v ∧
+      (step cfg w (.line c s)).events = [] ∧
+      (step cfg w (.line c s)).outs = ((Map.keys C.users).filter (· != v) ++ [v]).map (fun m =>
+        (C01.Spec.ownerOf w m, kickLine cn.source ch v comment))) ∧
+    ((¬ ∃ chum vm, Map.lookup n C.users = some chum ∧ Map.lookup v C.users = some vm ∧
+        kickable chum vm = true) →
+      (step cfg w (.line c s)).w = bumpCount w CmdId.KICK.index ∧
+      (step cfg w (.line c s)).events = [] ∧
+      (step cfg w (.line c s)).outs = [(c, C07.srvLine cfg (kickErr n ch v n C))]) := by
+  have hI := h.inv
+  have hx : ({ w := bumpCount w CmdId.KICK.index } : Ctx).conn c = cn := conn_of_conn? h.live [] []
+  have hd : dispatch cfg c msg (Command.KICK ch [v] (some comment))
+      { w := bumpCount w (Command.KICK ch [v] (some comment)).id.index } =
+      processKick cfg c ch [v] (some comment) { w := bumpCount w CmdId.KICK.index } := rfl
+  rw [step_line_eq h.live (Or.inl h.auth) hp hcmd, hd]
+  constructor
+  · rintro ⟨chum, vm, ha, hv, hk⟩
+    obtain ⟨a1, a2, a3⟩ := kick_ok_handler cfg c ch v comment { w := bumpCount w CmdId.KICK.index }
+      n C chum vm (by rw [hx]; exact h.nick) hC ha hv hk
+      (fun m hm => hI.memberIsUser ch C m hC hm)
+    have hconns : ((bumpCount w CmdId.KICK.index).removeUserFromChannel ch v).conns = w.conns :=
+      C05.rufc_conns _ _ _
+    rw [finish_of_settled _ _ _ (by rw [a1]; show ∀ y ∈ ((bumpCount w CmdId.KICK.index).removeUserFromChannel ch v).conns, _; rw [hconns]; exact hI.settled)]
+    refine ⟨a1, rfl, ?_⟩
+    show List.map _ _ ++ _ = _
+    rw [a2, a3, hx]
+    simp [C01.Spec.ownerOf, bumpCount_users]
+  · intro href
+    have e := kick_refused_handler cfg c ch v comment { w := bumpCount w CmdId.KICK.index } n C
+      (by rw [hx]; exact h.nick) hC href
+    rw [e, finish_of_settled _ _ _ (by exact hI.settled), hx, h.clientName]
+    exact ⟨rfl, rfl, rfl⟩
+
+
+/-! ### small facts used by the final statements -/
+
+/-- `bumpCount` touches nothing but `cmdCounts` -/
+theorem bumpCount_frame (w : World) (i : Nat) :
+    (bumpCount w i).users = w.users ∧ (bumpCount w i).channels = w.channels ∧
+    (bumpCount w i).wallops = w.wallops ∧ (bumpCount w i).invisibleCount = w.invisibleCount ∧
+    (bumpCount w i).operatorsCount = w.operatorsCount ∧ (bumpCount w i).maxUsers = w.maxUsers ∧
+    (bumpCount w i).histories = w.histories ∧ (bumpCount w i).conns = w.conns ∧
+    (bumpCount w i).connsCount = w.connsCount ∧ (bumpCount w i).srvQuit = w.srvQuit ∧
+    (bumpCount w i).panicked = w.panicked ∧
+    (bumpCount w i).cmdCounts = w.cmdCounts.set i (w.cmdCounts.getD i 0 + 1) :=
+  ⟨rfl, rfl, rfl, rfl, rfl, rfl, rfl, rfl, rfl, rfl, rfl, rfl⟩
+
+theorem nodup_of_nodup_map {α β : Type} (f : α → β) : ∀ l : List α, (l.map f).Nodup → l.Nodup
+  | [], _ => List.nodup_nil
+  | a :: l, h => by
+    rw [List.map_cons, List.nodup_cons] at h
+    rw [List.nodup_cons]
+    exact ⟨fun ha => h.1 (List.mem_map.mpr ⟨a, ha, rfl⟩), nodup_of_nodup_map f l h.2⟩
+
+/-- "exactly once": in `direct lines to c ++ one line per member`, the line of a member owned by
+    another connection occurs exactly once -/
+theorem count_delivery (c : Nat) (jl : Str) (direct : List Str) (members : List Str)
+    (owner : Str → Nat) (hnd : (members.map owner).Nodup) (hne : ∀ m ∈ members, owner m ≠ c)
+    (m : Str) (hm : m ∈ members) :
+    (direct.map (fun l => (c, l)) ++ members.map (fun m => (owner m, jl))).count (owner m, jl) = 1 := by
+  have h1 : (owner m, jl) ∉ direct.map (fun l => (c, l)) := by
+    intro h
+    obtain ⟨l, _, hl⟩ := List.mem_map.mp h
+    exact hne m hm (congrArg Prod.fst hl).symm
+  have h2 : (members.map (fun m => (owner m, jl))).Nodup := by
+    apply nodup_of_nodup_map Prod.fst
+    rw [List.map_map]
+    exact hnd
+  rw [List.count_append, List.count_eq_zero.mpr h1, h2.count, if_pos (List.mem_map.mpr ⟨m, hm, rfl⟩)]
+
+/-- the relayed PRIVMSG / NOTICE line is `C13.relayLine` of the `format!` text of the handler -/
+theorem line_eq_relay (src : Str) (notice : Bool) (ch text : Str) :
+    C01.Spec.line src notice ch text =
+      C13.relayLine src ((if notice then str "NOTICE " else str "PRIVMSG ") ++ ch ++ str " :" ++ text) := by
+  cases notice <;> simp [C01.Spec.line, C13.relayLine, Msg.str_colon, Msg.str_spNOTICE, Msg.str_spPRIVMSG]
+
+/-- receiver side: the relayed line re-parses to the sender's source, the verb, the channel and
+    the text exactly as sent (any text) -/
+theorem relayed_parse (notice : Bool) {src ch : Str} (text : Str)
+    (hs : C13.wellFormedSource src = true) (hch : WfChan ch) :
+    Message.parse (C01.Spec.line src notice ch text) =
+      .ok ⟨some src, if notice then str "NOTICE" else str "PRIVMSG", [ch, text]⟩ := by
+  rw [line_eq_relay]
+  exact C13.relay_privmsg_notice notice src ch text hs (C13.bools_of_word ch hch.word)
+
+/-- `remove_user_from_channel` of a member, spelled out -/
+theorem rufc_effect (w : World) (ch v : Str) (C : Channel)
+    (hC : Map.lookup ch w.channels = some C) (hvc : Map.contains v C.users = true) :
+    (∀ C', Map.lookup ch (w.removeUserFromChannel ch v).channels = some C' →
+      C' = Tear.chanWithout C v) ∧
+    (Map.lookup ch (w.removeUserFromChannel ch v).channels = none →
+      C.preconfigured = false ∧ ∀ m, Map.contains m C.users = true → m = v) ∧
+    (∀ ch', ch' ≠ ch →
+      Map.lookup ch' (w.removeUserFromChannel ch v).channels = Map.lookup ch' w.channels) ∧
+    (∀ m, Map.lookup m (w.removeUserFromChannel ch v).users =
+      if v = m then (Map.lookup m w.users).map
+        (fun u => { u with channels := KSet.erase ch u.channels })
+      else Map.lookup m w.users) ∧
+    (w.removeUserFromChannel ch v).conns = w.conns ∧
+    (w.removeUserFromChannel ch v).wallops = w.wallops ∧
+    (w.removeUserFromChannel ch v).histories = w.histories ∧
+    (w.removeUserFromChannel ch v).cmdCounts = w.cmdCounts ∧
+    (w.removeUserFromChannel ch v).panicked = w.panicked := by
+  rw [Tear.removeUserFromChannel_eq' w ch v C hC hvc]
+  have hlk : Map.lookup ch (Tear.chansAfterDrop ch v C w.channels) = Tear.chanDrop v C := by
+    rw [Tear.lookup_chansAfterDrop, if_pos rfl]
+  refine ⟨?_, ?_, ?_, ?_, rfl, rfl, rfl, rfl, rfl⟩
+  · intro C' h
+    have h : Map.lookup ch (Tear.chansAfterDrop ch v C w.channels) = some C' := h
+    rw [hlk] at h
+    exact (Tear.chanDrop_some h).1
+  · intro h
+    have h : Map.lookup ch (Tear.chansAfterDrop ch v C w.channels) = none := h
+    rw [hlk] at h
+    unfold Tear.chanDrop at h
+    split at h
+    · rename_i hcond
+      simp only [Bool.and_eq_true, Bool.not_eq_eq_eq_not, Bool.not_true] at hcond
+      refine ⟨hcond.2, ?_⟩
+      intro m hmc
+      have hemp : Map.erase v C.users = [] := List.isEmpty_iff.mp hcond.1
+      cases hmn : decide (m = v) with
+      | true => exact of_decide_eq_true hmn
+      | false =>
+        have hne : m ≠ v := of_decide_eq_false hmn
+        obtain ⟨r, hr⟩ := (Map.contains_iff _ _).mp hmc
+        have : Map.lookup m (Map.erase v C.users) = some r := by
+          rw [Map.lookup_erase_ne m v C.users (fun e => hne e.symm)]; exact hr
+        rw [hemp] at this
+        cases this
+    · cases h
+  · intro ch' hne
+    show Map.lookup ch' (Tear.chansAfterDrop ch v C w.channels) = _
+    rw [Tear.lookup_chansAfterDrop, if_neg (fun e => hne e.symm)]
+  · intro m
+    exact Map.lookup_modify m v _ w.users
+
+/-- the channel without `v`: `v` is neither a member nor in any rank list; everybody else and all
+    settings are as before -/
+theorem chanWithout_effect (C : Channel) (v : Str) :
+    Map.lookup v (Tear.chanWithout C v).users = none ∧
+    KSet.mem v (Tear.chanWithout C v).modes.founders = false ∧
+    KSet.mem v (Tear.chanWithout C v).modes.protecteds = false ∧
+    KSet.mem v (Tear.chanWithout C v).modes.operators = false ∧
+    KSet.mem v (Tear.chanWithout C v).modes.halfOperators = false ∧
+    KSet.mem v (Tear.chanWithout C v).modes.voices = false ∧
+    Tear.ChanSameExcept v C (Tear.chanWithout C v) := by
+  refine ⟨Map.lookup_erase_eq v C.users, ?_, ?_, ?_, ?_, ?_, Tear.chanSameExcept_without v C⟩ <;>
+    (show KSet.mem v (KSet.erase v _) = false; rw [KSet.mem_erase]; simp)
+
 
 end Irc.Wire
